@@ -8,6 +8,12 @@ CLAIMED = {
          "Trusted: the independently typed tables in engine/cmd/vcheck/c17.go; the verif-tagged forwarding functions for the two unexported stringers.",
          "DESIGN.md §6 C17"),
 }
+CLAIMED["C16"]=("exhaustive enumeration of value domains and of all short decoder inputs (strings <=4/6 over a 16-symbol alphabet, byte strings <=2, every prefix and 1-byte substitution of valid encodings)",
+  "Every value of each 8/16-bit type, all 2^16 ExposureBias encodings, the k/100 grid (and in the thorough tier all 2^32 float32 bit patterns) for the float types, pattern and bit-walk values for 64-256-bit types are marshalled and unmarshalled through text, JSON and MessagePack (both API styles, fresh and dirty destinations) on the real code; every decoder is run on every short input of the stated alphabets. Exhaustive within those stated domains.",
+  "Trusted: encoding/json, msgp runtime; the notion of valid value stated in the evidence assumptions.", "DESIGN.md §6 C16")
+CLAIMED["C09"]=("exhaustive enumeration of all 1-byte (and 2-byte) perturbations, predicate-range splices, truncations and suffixes of ~55 canonical headers against an independently written signature table",
+  "All four sniffing entry points are executed on every single-byte perturbation (24 positions x 256 values) of every canonical header, on every one/two-range splice of every ordered header pair and on every length 0..24 with a suffix menu; the pure classifier is additionally run on every 2-byte perturbation (thorough: all 65536 value pairs per position pair). Agreement, non-consumption, prefix-only behaviour, error mapping and signature correctness (narrow must-table for completeness, wide may-table for soundness) are checked on every case.",
+  "Trusted: the signature table in engine/cmd/vcheck/c09.go (typed from format specifications, not from the code).", "DESIGN.md §6 C09")
 NOT_YET = {}
 def main():
     props=[json.loads(l) for l in open('/verif/properties.jsonl')]
